@@ -182,7 +182,7 @@ def cli_cases(ctx, n):
             argv += ["--action", rng.choice(["none", "lowercase", "mask", "trim"])]
         # options of the adapter search that have nothing to do with these definitions (no adapter is given): they must not change the result
         for o_ in rng.sample([["-O", str(rng.choice([1, 2, 5, 8, 12]))], ["-e", rng.choice(["0", "0.3", "2"])], ["--times", "3"], ["-N"],
-                              ["--match-read-wildcards"], ["--no-indels"]], rng.choice([0, 0, 1, 2])):
+                              ["--match-read-wildcards"], ["--no-indels"], ["-O", str(rng.choice([1, 2, 6, 10]))]], rng.choice([0, 1, 2, 2, 3])):
             argv += o_
         argv += [opt] + ([val] if val is not None else [])
         argv += ["-o", "{dir}/o1.fastq"]
